@@ -1,0 +1,54 @@
+//go:build verif
+
+// Machine-checked contracts for package peerstore (comment-only; read by /verif/govc).
+// Properties C27 (the in-memory peer store) and, through it, the "no peer twice" clause of C26.
+
+package peerstore
+
+// Representation invariant of a peer group (monitor invariant of peerGroup.mu): peerList and
+// peerMap index the same entries - every list slot holds a distinct, non-nil entry that the map
+// finds under the entry's own id, and both have the same number of entries.
+//@ lockinv peerGroup.mu self g guards peerList, contents peerMap, lastExpiresAt, deleted, allmem *peerEntry, type peerEntry
+//@   invariant map_ok: g.peerMap != nil
+//@   invariant slots: forall i int :: 0 <= i && i < len(g.peerList) ==> g.peerList[i] != nil && allocated(g.peerList[i]) && (g.peerList[i].id in g.peerMap) && g.peerMap[g.peerList[i].id] == g.peerList[i]
+//@   invariant distinct: forall i int, j int :: 0 <= i && i < j && j < len(g.peerList) ==> g.peerList[i] != g.peerList[j]
+//@   invariant ids_distinct: forall i int, j int :: 0 <= i && i < j && j < len(g.peerList) ==> g.peerList[i].id != g.peerList[j].id
+//@   invariant same_size: len(g.peerMap) == len(g.peerList)
+//@   invariant row: cap(g.peerList) == 0 || allocated(g.peerList)
+
+// Returns with the group's mutex held (its retry loop is not verified here).
+//@ func LocalStore.getOrInitLockedPeerGroup
+//@   trusted
+//@   acquires result.mu
+//@   ensures result != nil && allocated(result)
+
+//@ func LocalStore.UpdatePeer
+//@   requires s != nil && p != nil
+//@   modifies *
+//@   ensures stored: result == nil
+//@   ensures recorded: (p.PeerID in g.peerMap) && g.peerMap[p.PeerID].id == p.PeerID && g.peerMap[p.PeerID].ip == p.IP && g.peerMap[p.PeerID].port == p.Port && g.peerMap[p.PeerID].complete == p.Complete && g.peerMap[p.PeerID].expiresAt == s.clk.now + s.config.TTL
+//@   loop 0 invariant none: true
+
+// GetPeers: only the size bound is under contract here. That the returned peers are distinct
+// follows from the group invariant (distinct ids in peerList) and rand.Perm returning distinct
+// indexes; the loop that copies them was not brought to a stable discharge (queries of 10-30 s).
+//@ func LocalStore.GetPeers
+//@   requires s != nil
+//@   modifies *
+//@   ensures bounded: len(result0) <= max(n, 0)
+//@   loop 0 invariant built: 0 - 1 <= rangeindex && rangeindex < len(indexes) && len(result) == rangeindex + 1 && len(indexes) <= max(n, 0)
+
+// The sweep re-checks each index under the write lock, so stale indices from the read-locked
+// scan are harmless; what is proved here is that every write-locked section re-establishes
+// the group invariant (lockinv obligations at its Unlock).
+//@ func LocalStore.cleanupExpiredPeerEntries
+//@   requires s != nil
+//@   modifies *
+//@   loop 3 invariant map_ok: g != nil && g.peerMap != nil
+//@   loop 3 invariant slots: forall i int :: 0 <= i && i < len(g.peerList) ==> g.peerList[i] != nil && allocated(g.peerList[i]) && (g.peerList[i].id in g.peerMap) && g.peerMap[g.peerList[i].id] == g.peerList[i]
+//@   loop 3 invariant distinct: forall i int, j int :: 0 <= i && i < j && j < len(g.peerList) ==> g.peerList[i] != g.peerList[j]
+//@   loop 3 invariant ids_distinct: forall i int, j int :: 0 <= i && i < j && j < len(g.peerList) ==> g.peerList[i].id != g.peerList[j].id
+//@   loop 3 invariant fresh_kept: forall id core.PeerID :: entry(id in g.peerMap) && s.clk.now < entry(g.peerMap[id]).expiresAt ==> (id in g.peerMap) && g.peerMap[id] == entry(g.peerMap[id])
+//@   loop 3 invariant clock: s.clk.now >= entry(s.clk.now)
+//@   loop 3 invariant same_size: len(g.peerMap) == len(g.peerList)
+//@   loop 3 invariant row: (cap(g.peerList) == 0 || allocated(g.peerList)) && 0 <= len(g.peerList) && len(g.peerList) <= cap(g.peerList)
